@@ -571,6 +571,8 @@ func (vc *FuncVC) mergeStates(hint string, conds []Term, sts []*State) *State {
 }
 
 func (vc *FuncVC) block(b *ssa.BasicBlock, defs map[string][]defPoint) {
+	vc.curB = b.Index
+	defer func() { vc.curB = -1 }()
 	fn := vc.fn
 	var st *State
 	l := vc.loopAt[b]
@@ -1017,6 +1019,7 @@ func (vc *FuncVC) instr(b *ssa.BasicBlock, idx int, ins ssa.Instruction, st *Sta
 		et := derefType(x.Type())
 		a := vc.allocObject(st, "a_"+x.Name(), reach)
 		vc.vals[x] = a
+		vc.emit("(assert (= (ptype %s) %d))", a.S, vc.tc.TypeID(et))
 		if containsArray(et, 0) {
 			vc.emit("(assert (not (iscell %s)))", a.S)
 		} else {
